@@ -26,8 +26,9 @@ func runC17(c *Ctx) {
 	ruleNoSMTPErrorMutation(c)
 	ruleNoReplyAfterClose(c)
 	ruleHelloErrorNotMasked(c)
-	ruleGoCapture(c)          // the reply to BDAT LAST carries the error THIS message's Data returned: the goroutine reports through the channel it captured
-	ruleWriteDeadlineOwner(c) // a verdict that takes the backend longer than ReadTimeout is still written
+	ruleGoCapture(c)             // the reply to BDAT LAST carries the error THIS message's Data returned: the goroutine reports through the channel it captured
+	ruleClientDeadlinesPaired(c) // the client waits for the Data verdict under the submission timeout, not the command timeout
+	ruleWriteDeadlineOwner(c)    // a verdict that takes the backend longer than ReadTimeout is still written
 	// the error reported for a failed chunk is the one the pipe copy returned — the backend's own error comes back that
 	// way (r.CloseWithError) — and "unexpected EOF" stands in only when the copy returned none
 	R.Rule("R-chunk-error-kept", "E3 guard facts", "handleBdat replaces the chunk copy's error by io.ErrUnexpectedEOF only where that error is nil", 1)
